@@ -28,7 +28,7 @@ BOUNDS = [(0, None), (0, None), (0, 0), (0, 1), (0, 2), (0, 3), (1, None), (1, 1
 
 def gen_source(rnd):
     """how the assigned value is built: a plain container, or an ownerless trait container of the same trait"""
-    return rnd.choice(["plain", "plain", "plain", "deepcopy", "deepcopy", "orphan"])
+    return rnd.choice(["plain", "plain", "plain", "plain", "deepcopy", "deepcopy", "orphan", "copy", "pickle", "self"])
 
 
 def header(kind):
@@ -48,8 +48,14 @@ def out_q(mod, o, names):
 # ---------------------------------------------------------------- list
 def list_term(case, obs):
     h = []
+    prev = list(case["init"])
     for op, ob in zip(case["ops"], obs):
-        t = C("LAssign", bool(op[1]), list(op[2])) if op[0] == "Assign" else C("LOp", c05.op_term(op))
+        if op[0] == "Assign":
+            # source "self": the value assigned is the trait's own current value
+            t = C("LAssign", bool(op[1]), list(prev if (len(op) > 3 and op[3] == "self") else op[2]))
+        else:
+            t = C("LOp", c05.op_term(op))
+        prev = list(ob["after"])
         h.append((t, c05.obs_term(dict(ob, out=ob["out"] if ob["out"] in ("Ok", "IndexError", "ValueError",
                                                                           "TraitError", "TypeError") else "OtherError"))))
     return (C(case["vk"]), case["minlen"], opt(case["maxlen"]), list(case["init"]), h)
@@ -77,10 +83,10 @@ def gen_list(rnd, ctx, maxops, maxinit):
 SEXN = ("KeyError", "TraitError", "TypeError", "AttributeError")
 
 
-def sop_term(op, ob):
+def sop_term(op, ob, prev=None):
     k = op[0]
     if k == "Assign":
-        return C("SAssign", bool(op[1]), list(op[2]))
+        return C("SAssign", bool(op[1]), list(prev if (len(op) > 3 and op[3] == "self") else op[2]))
     if k in ("Add", "Discard", "Remove"):
         t = C("S." + k, op[1])
     elif k == "Pop":
@@ -99,8 +105,11 @@ def sop_term(op, ob):
 
 
 def set_term(case, obs):
-    h = [(sop_term(op, ob), (out_q("S", ob["out"], SEXN), list(ob["after"]), Nat(ob["nev"]), opt(ob["ret"])))
-         for op, ob in zip(case["ops"], obs)]
+    h = []
+    prev = list(case["init"])
+    for op, ob in zip(case["ops"], obs):
+        h.append((sop_term(op, ob, prev), (out_q("S", ob["out"], SEXN), list(ob["after"]), Nat(ob["nev"]), opt(ob["ret"]))))
+        prev = list(ob["after"])
     return (C(case["vk"]), list(case["init"]), h)
 
 
@@ -125,8 +134,12 @@ def gen_set(rnd, ctx, maxops):
             op = [k]
         elif k in ("Update", "DiffUpdate", "InterUpdate"):
             op = [k, [items() for _ in range(rnd.randint(0 if k != "InterUpdate" else 1, 3))]]
+            if k == "Update" and rnd.random() < 0.2:
+                op.append("loose")
         elif k in ("Ior", "Iand", "Isub", "Ixor"):
             op = [k, rnd.choice(["set", "set", "set", "frozenset", "list"]), items()]
+            if op[1] == "set" and rnd.random() < 0.2:
+                op.append("loose")
         elif k == "SymDiffUpdate":
             op = [k, items()]
         else:
@@ -141,11 +154,11 @@ def gen_set(rnd, ctx, maxops):
 DEXN = ("KeyError", "TraitError", "TypeError", "ValueError")
 
 
-def dop_term(op):
+def dop_term(op, prev=None):
     k = op[0]
     ps = lambda l: [(a, b) for a, b in l]  # noqa
     if k == "Assign":
-        return C("DAssign", bool(op[1]), ps(op[2]))
+        return C("DAssign", bool(op[1]), ps(prev if (len(op) > 3 and op[3] == "self") else op[2]))
     if k == "SetItem":
         t = C("D.SetItem", op[1], op[2])
     elif k == "DelItem":
@@ -164,8 +177,11 @@ def dop_term(op):
 
 
 def dict_term(case, obs):
-    h = [(dop_term(op), (out_q("D", ob["out"], DEXN), [(a, b) for a, b in ob["after"]], Nat(ob["nev"])))
-         for op, ob in zip(case["ops"], obs)]
+    h = []
+    prev = [list(p) for p in case["init"]]
+    for op, ob in zip(case["ops"], obs):
+        h.append((dop_term(op, prev), (out_q("D", ob["out"], DEXN), [(a, b) for a, b in ob["after"]], Nat(ob["nev"]))))
+        prev = [list(p) for p in ob["after"]]
     return (C(case["kk"]), C(case["vk"]), [(a, b) for a, b in case["init"]], h)
 
 
@@ -195,6 +211,8 @@ def gen_dict(rnd, ctx, maxops):
             op = [k, key()]
         elif k in ("Update", "Ior"):
             op = [k, rnd.random() < 0.5, pairs()]
+            if op[1] and rnd.random() < 0.25:
+                op.append("loose")
         elif k == "SetDefault":
             op = [k, key(), value()]
         elif k == "Pop":
@@ -302,7 +320,8 @@ def gen_nested(rnd, ctx, maxops):
         elif k in ("NReverse", "NClear"):
             op = [k]
         elif k == "NAssign":
-            op = [k, None if rnd.random() < 0.15 else [raw() for _ in range(rnd.randint(0, 4))], gen_source(rnd)]
+            op = [k, None if rnd.random() < 0.15 else [raw() for _ in range(rnd.randint(0, 4))],
+                  gen_source(rnd).replace("self", "plain")]
         else:
             j = rnd.randint(0, max(n, 1))
             cur = [0, 1, 2]
@@ -388,7 +407,7 @@ def gen_ndict(rnd, ctx, maxops):
                     continue
                 ps.append([key, v])
                 bad = bad or b or key < 100 or key >= 200
-            op = [k, ps, gen_source(rnd) if k == "Assign" else bad]
+            op = [k, ps, gen_source(rnd).replace("self", "plain") if k == "Assign" else bad]
         elif k == "SetDefault":
             key = okey() if rnd.random() < 0.8 else rnd.choice([3, 200])
             v, bad = raw_bad()
@@ -404,9 +423,7 @@ def gen_ndict(rnd, ctx, maxops):
             iop = c05.gen_op(rnd, vk, cur)
             while iop[0] == "Imul" and abs(iop[1]) > 3:
                 iop = c05.gen_op(rnd, vk, cur)
-            offered = {"SetInt": [iop[-1]], "Append": [iop[-1]], "Insert": [iop[-1]], "SetSlice": iop[-1],
-                       "Extend": iop[-1], "Iadd": iop[-1]}.get(iop[0], [])
-            op = [k, okey(), iop, any(not (0 <= a < 100) for a in offered)]
+            op = [k, okey(), iop, False]
         ops.append(op)
         ctx.count("op:ndict." + k)
     return dict(kind="ndict", vk=vk, ib=list(ib), init=init, ops=ops)
